@@ -1,6 +1,7 @@
 package main
 
 import (
+	"context"
 	"encoding/json"
 	"flag"
 	"fmt"
@@ -267,6 +268,49 @@ func cmdVerify(args []string) int {
 			solver.SecBy[k] += v
 		}
 	}
+	// thorough tier: a second opinion.  Every obligation discharged by one solver is given to a
+	// different solver; agreement is counted, a contradicting `sat` makes the function undecided
+	// (one of the two solvers is wrong: nothing is claimed).
+	second := map[string]int{}
+	var secondDisagree []string
+	if *tier == "thorough" && os.Getenv("GOVC_NOSECOND") == "" {
+		var smu sync.Mutex
+		for _, o := range first {
+			if o.Trivial || o.Res.Answer != "unsat" {
+				continue
+			}
+			other := "cvc5"
+			if o.Res.Solver == "cvc5" {
+				other = "z3"
+			}
+			wg.Add(1)
+			sem <- struct{}{}
+			go func(o *Obligation, other string) {
+				defer wg.Done()
+				defer func() { <-sem }()
+				file := filepath.Join(outDir, "smt", pf.ID, "second-"+hashScript(o.Script)+".smt2")
+				os.MkdirAll(filepath.Dir(file), 0o755)
+				if err := os.WriteFile(file, []byte(o.Script), 0o644); err != nil {
+					return
+				}
+				defer os.Remove(file)
+				ans, _, el := runOne(context.Background(), other, file, 20, seed)
+				solver.note(other, el, false)
+				smu.Lock()
+				defer smu.Unlock()
+				switch ans {
+				case "unsat":
+					second["agree"]++
+				case "sat":
+					second["disagree"]++
+					secondDisagree = append(secondDisagree, o.Name+" ("+o.Res.Solver+": unsat, "+other+": sat)")
+				default:
+					second["no_answer_in_20s"]++
+				}
+			}(o, other)
+		}
+		wg.Wait()
+	}
 	// vacuity covers: per function/case, stop at the first satisfiable return path
 	coverSolver := NewSolver(filepath.Join(outDir, "smt", pf.ID+"-cover"), 3, seed)
 	coverSolver.QuickS = 3
@@ -315,6 +359,11 @@ func cmdVerify(args []string) int {
 			undecided = append(undecided, "vacuous: no return of "+ShortKey(k)+" is reachable under its preconditions")
 		}
 	}
+	sort.Strings(secondDisagree)
+	for _, d := range secondDisagree {
+		undecided = append(undecided, "solvers disagree on "+d)
+	}
+	secondOpinion = second
 	if os.Getenv("GOVC_STATS") != "" {
 		cnt := map[string]int{}
 		for _, o := range all {
@@ -449,6 +498,9 @@ func loadKnown(path, id string) map[string]string {
 	return out
 }
 
+// secondOpinion: thorough-tier agreement counts of the second solver (written into the evidence).
+var secondOpinion map[string]int
+
 func writeEvidence(path string, pf PropFile, tier string, seed int, order []string, groups map[string]*oblGroup, all []*Obligation,
 	funcs []string, solver *Solver, assumptions map[string]bool, db *SpecDB, known []string, violations int, undecided []string, wall float64) {
 	os.MkdirAll(filepath.Dir(path), 0o755)
@@ -528,6 +580,7 @@ func writeEvidence(path string, pf PropFile, tier string, seed int, order []stri
 			"functions_under_contract": funcs,
 			"discharged_by_backend":    byBackend,
 			"solver_seconds":           secBy,
+			"second_solver_opinion":    secondOpinion,
 			"known_findings_reported":  known,
 			"undecided":                undecided,
 			"obligation_names":         names,
